@@ -77,6 +77,7 @@ class Report:
         self.counters = {}         # name -> int
         self.flags = set()         # names of coverage facts seen (for vacuity guards)
         self.notes = []
+        self.fp_counts = {}        # fingerprint tail -> number of occurrences (details kept for the first few only)
         self.stop_on = None        # replay mode: fingerprint tail (subcheck, callee, kind, input_class) to stop at
 
     # -- recording -------------------------------------------------------------------------
@@ -91,7 +92,9 @@ class Report:
         self.distinct.add(h64(key))
 
     def outcome(self, kind, label):
-        s = self.outcomes.setdefault(kind, set())
+        s = self.outcomes.get(kind)
+        if s is None:
+            s = self.outcomes[kind] = set()
         if len(s) < OUTCOME_CAP:
             s.add(str(label)[:80])
 
@@ -101,10 +104,14 @@ class Report:
 
     def violation(self, subcheck, callee, kind, input_class, detail=None):
         """fingerprint = (subcheck, callee, kind, input_class); detail = concrete counterexample."""
-        self.violations.append({
-            "subcheck": str(subcheck), "callee": str(callee), "kind": str(kind),
-            "input_class": str(input_class), "detail": jsonable(detail),
-        })
+        key = (str(subcheck), str(callee), str(kind), str(input_class))
+        c = self.fp_counts.get(key, 0)
+        self.fp_counts[key] = c + 1
+        if c < 2:
+            self.violations.append({
+                "subcheck": key[0], "callee": key[1], "kind": key[2],
+                "input_class": key[3], "detail": jsonable(detail),
+            })
         if self.stop_on is not None and self.stop_on == (str(subcheck), str(callee), str(kind), str(input_class)):
             raise ReplayHit()
 
@@ -124,6 +131,8 @@ class Report:
             if len(self.samples) < SAMPLE_CAP:
                 self.samples.append(x)
         self.violations.extend(other.violations)
+        for k, v in other.fp_counts.items():
+            self.fp_counts[k] = self.fp_counts.get(k, 0) + v
         for k, v in other.counters.items():
             self.counters[k] = self.counters.get(k, 0) + v
         self.flags |= other.flags
